@@ -395,6 +395,7 @@ class StubsLib(StubsBase):
             "sqrt": Stub(self.np_sqrt, "np.sqrt"),
             "exp": Stub(self.np_exp, "np.exp"),
             "floor": Stub(lambda c, x: self.np_floorceil(c, x, False), "np.floor"),
+            "trunc": Stub(self.np_trunc, "np.trunc"),
             "ceil": Stub(lambda c, x: self.np_floorceil(c, x, True), "np.ceil"),
             "round": Stub(lambda c, x, decimals=0: self.np_round(c, x), "np.round"),
             "iscomplexobj": Stub(self.np_iscomplexobj, "np.iscomplexobj"),
@@ -596,6 +597,14 @@ class StubsLib(StubsBase):
         if V.is_num(x):
             return fn(x)
         raise Unsupported("np.floor/ceil operand")
+
+    def np_trunc(self, ctx, x):
+        fn = lambda v: V.trunc_real(ctx, v)
+        if isinstance(x, SArr):
+            return A.elementwise(ctx, fn, [x], x.dtype if x.dtype.kind == "f" else DType("float64"))
+        if V.is_num(x):
+            return fn(x)
+        raise Unsupported("np.trunc operand")
 
     def np_round(self, ctx, x):
         if isinstance(x, SArr):
